@@ -82,6 +82,40 @@ def run_for_property(prop: str, root: str, seed: int = 0, jobs: int = 16) -> dic
     return summary
 
 
+def _run_seed(args):
+    prop, root, seed_dir = args
+    import subprocess
+    name = os.path.basename(seed_dir)
+    d = tempfile.mkdtemp(prefix="bnpsa_seed_", dir=_scratch_root())
+    try:
+        shutil.copytree(os.path.join(root, "bionumpy"), os.path.join(d, "bionumpy"), ignore=shutil.ignore_patterns("__pycache__", "*.pyc"))
+        p = subprocess.run(["patch", "-p1", "-s", "-i", os.path.join(seed_dir, "patch.diff")], cwd=d, capture_output=True, text=True)
+        if p.returncode != 0:
+            return {"seed": name, "status": "not-applicable", "why": "patch does not apply to the current tree"}
+        from .report import Ctx
+        mod = importlib.import_module(f"bnpsa.rules.{prop.lower()}")
+        buf = io.StringIO()
+        with contextlib.redirect_stdout(buf):
+            ctx = Ctx(prop, "quick", d, 0, write=False)
+            ctx.run_rules(mod.RULES)
+        known = {k.get("key") for k in ctx.known}
+        fired = sorted({v["rule"] for v in ctx.violations if v.get("key") not in known})
+        return {"seed": name, "status": "detected" if fired else ("analysis-error" if ctx.analysis_errors else "missed"), "fired": fired}
+    finally:
+        shutil.rmtree(d, ignore_errors=True)
+
+
+def run_seeds_for_property(prop: str, root: str, jobs: int = 8) -> dict:
+    """Independent seeded changes (written by sub-agents that saw only the property text; /verif/seeded/<prop>-n) as a detection corpus."""
+    here = os.path.join(os.path.dirname(os.path.dirname(os.path.abspath(__file__))), "seeded")
+    dirs = sorted(os.path.join(here, d) for d in os.listdir(here) if d.startswith(prop + "-") and os.path.isdir(os.path.join(here, d))) if os.path.isdir(here) else []
+    if not dirs:
+        return {"seeds": 0}
+    with ProcessPoolExecutor(max_workers=min(jobs, len(dirs))) as ex:
+        res = list(ex.map(_run_seed, [(prop, root, d) for d in dirs]))
+    return {"seeds": len(res), "detected": sum(r["status"] == "detected" for r in res), "results": res}
+
+
 if __name__ == "__main__":
     import json
     props = sys.argv[1:] or []
